@@ -22,6 +22,7 @@ EXPLANATION = (
     "target is never overwritten. Writers whose third-party dependency is not installed are analysed and reported as info. "
     "NOT decided: counts for all N mod limit, byte-wise concatenation of parts, non-monotonic timestamp histories."
     " Also decided (rules added after the fifth blind round): (R17.4) the archiver instantiates its path template with the record's own _generated value (current time only when it has none) and the record itself."
+    " Rules added after the sixth blind round: (R17.5 = R18.3 of C18) transaction control only in tx_cycle; (R17.6) close() finalises unconditionally - the finalising call depends on the resource being open, never on a state flag."
 )
 RULE_SUMMARY = "instances: (writer, flush effect) pairs, release sites, __exit__/__del__ definitions, split/rotation statements"
 
